@@ -301,8 +301,47 @@ harness!(c09_semiring, 30, {
     cov!(got, "a semiring on 3 elements");
     cov!(!got, "not a semiring");
 });
-//@ heavy=1
-harness!(c09_ring_family, 30, {
+//@ heavy=1 tier=thorough
+harness!(c09_ring, 30, {
+    let f = tab();
+    let g = tab();
+    let zero = below(N as u8);
+    let one = below(N as u8);
+    let neg = un();
+    let sr = r_semiring(&f, &g, zero, one);
+    let ring = algebra::ring(&ITEMS, &|a, b| ap(&f, a, b), &|a, b| ap(&g, a, b), zero, one, &|a| neg[a as usize]).is_ok();
+    assert!(ring == (sr && r_inverse(&f, zero, &neg)), "C09 ring != semiring + additive inverse");
+    cov!(ring, "a ring on 3 elements");
+    cov!(sr && !ring, "semiring that is not a ring with this negation");
+});
+//@ heavy=1 tier=thorough
+harness!(c09_commutative_ring, 30, {
+    let f = tab();
+    let g = tab();
+    let zero = below(N as u8);
+    let one = below(N as u8);
+    let neg = un();
+    let sr = r_semiring(&f, &g, zero, one);
+    let cring = algebra::commutative_ring(&ITEMS, &|a, b| ap(&f, a, b), &|a, b| ap(&g, a, b), zero, one, &|a| neg[a as usize]).is_ok();
+    assert!(cring == (sr && r_inverse(&f, zero, &neg) && r_comm(&g)), "C09 commutative_ring != ring + commutative multiplication");
+    cov!(cring, "a commutative ring");
+    cov!(!cring, "not one");
+});
+//@ heavy=1 tier=thorough
+harness!(c09_integral_domain, 30, {
+    let f = tab();
+    let g = tab();
+    let zero = below(N as u8);
+    let one = below(N as u8);
+    let neg = un();
+    let sr = r_semiring(&f, &g, zero, one);
+    let idom = algebra::integral_domain(&ITEMS, &|a, b| ap(&f, a, b), &|a, b| ap(&g, a, b), zero, one, &|a| neg[a as usize]).is_ok();
+    assert!(idom == (sr && r_inverse(&f, zero, &neg) && r_comm(&g) && r_no_zero_div(&g, zero)), "C09 integral_domain != commutative ring without zero divisors");
+    cov!(idom, "an integral domain");
+    cov!(!idom, "not one");
+});
+//@ heavy=1 tier=thorough
+harness!(c09_field, 30, {
     let f = tab();
     let g = tab();
     let zero = below(N as u8);
@@ -310,16 +349,10 @@ harness!(c09_ring_family, 30, {
     let neg = un();
     let rinv = un();
     let sr = r_semiring(&f, &g, zero, one);
-    let ring = algebra::ring(&ITEMS, &|a, b| ap(&f, a, b), &|a, b| ap(&g, a, b), zero, one, &|a| neg[a as usize]).is_ok();
-    assert!(ring == (sr && r_inverse(&f, zero, &neg)), "C09 ring != semiring + additive inverse");
-    let cring = algebra::commutative_ring(&ITEMS, &|a, b| ap(&f, a, b), &|a, b| ap(&g, a, b), zero, one, &|a| neg[a as usize]).is_ok();
-    assert!(cring == (sr && r_inverse(&f, zero, &neg) && r_comm(&g)), "C09 commutative_ring != ring + commutative multiplication");
-    let idom = algebra::integral_domain(&ITEMS, &|a, b| ap(&f, a, b), &|a, b| ap(&g, a, b), zero, one, &|a| neg[a as usize]).is_ok();
-    assert!(idom == (sr && r_inverse(&f, zero, &neg) && r_comm(&g) && r_no_zero_div(&g, zero)), "C09 integral_domain != commutative ring without zero divisors");
     let field = algebra::field(&ITEMS, &|a, b| ap(&f, a, b), &|a, b| ap(&g, a, b), zero, one, &|a| neg[a as usize], &|a| rinv[a as usize]).is_ok();
     assert!(field == (sr && r_inverse(&f, zero, &neg) && r_comm(&g) && r_nz_inverse(&g, one, zero, &rinv)), "C09 field != commutative ring + multiplicative inverses of non-zero elements");
     cov!(field, "GF(3) found");
-    cov!(ring && !field, "ring that is not a field with these inverses");
+    cov!(!field, "not a field");
 });
 
 // ---------------------------------------------------------------- linearity / bilinearity (carrier {0,1})
@@ -388,20 +421,57 @@ harness!(c09_bilinearity, 8, {
 });
 
 // ---------------------------------------------------------------- get_single_function_properties
+// The function pushes up to six names into a `Vec` under symbolic conditions; with the 3-element carrier
+// CBMC runs out of memory (path-dependent heap growth, DESIGN §2), so this one uses the carrier {0,1}.
 //@ heavy=1
-harness!(c09_get_single_function_properties, 30, {
-    let f = tab();
-    let e = below(N as u8);
-    let z = below(N as u8);
-    let inv = un();
-    let props = algebra::get_single_function_properties(&ITEMS, |a, b| ap(&f, a, b), e, |a| inv[a as usize], z);
+harness!(c09_get_single_function_properties, 10, {
+    let f = tab2();
+    let e = below(2);
+    let z = below(2);
+    let inv: [u8; 2] = [below(2), below(2)];
+    let items: [u8; 2] = [0, 1];
+    let ap2 = |a: u8, b: u8| f[a as usize][b as usize];
+    let props = algebra::get_single_function_properties(&items, ap2, e, |a| inv[a as usize], z);
     let has = |name: &str| props.iter().any(|p| *p == name);
-    assert!(has("associativity") == r_assoc(&f), "C09 properties list: associativity");
-    assert!(has("commutativity") == r_comm(&f), "C09 properties list: commutativity");
-    assert!(has("idempotency") == r_idem(&f), "C09 properties list: idempotency");
-    assert!(has("identity") == r_ident(&f, e), "C09 properties list: identity");
-    assert!(has("inverse") == r_inverse(&f, e, &inv), "C09 properties list: inverse");
-    assert!(has("absorbing_element") == r_absorb(&f, z), "C09 properties list: absorbing_element");
+    let mut assoc = true;
+    let mut comm = true;
+    let mut ident = true;
+    let mut absorb = true;
+    let mut invs = true;
+    let mut a = 0u8;
+    while a < 2 {
+        if ap2(e, a) != a || ap2(a, e) != a {
+            ident = false;
+        }
+        if ap2(z, a) != z || ap2(a, z) != z {
+            absorb = false;
+        }
+        if ap2(a, inv[a as usize]) != e || ap2(inv[a as usize], a) != e {
+            invs = false;
+        }
+        let mut b = 0u8;
+        while b < 2 {
+            if ap2(a, b) != ap2(b, a) {
+                comm = false;
+            }
+            let mut c = 0u8;
+            while c < 2 {
+                if ap2(a, ap2(b, c)) != ap2(ap2(a, b), c) {
+                    assoc = false;
+                }
+                c += 1;
+            }
+            b += 1;
+        }
+        a += 1;
+    }
+    let idem = ap2(0, 0) == 0 && ap2(1, 1) == 1;
+    assert!(has("associativity") == assoc, "C09 properties list: associativity");
+    assert!(has("commutativity") == comm, "C09 properties list: commutativity");
+    assert!(has("idempotency") == idem, "C09 properties list: idempotency");
+    assert!(has("identity") == ident, "C09 properties list: identity");
+    assert!(has("inverse") == invs, "C09 properties list: inverse");
+    assert!(has("absorbing_element") == absorb, "C09 properties list: absorbing_element");
     cov!(props.len() == 0, "no property");
     cov!(props.len() >= 4, "many properties");
     core::mem::forget(props);
